@@ -10,7 +10,10 @@ GEN = os.path.join(LEAN, "RSVerif", "Generated")
 HARNESS = os.path.join(VERIF, "go", "harness")
 FACTGEN = os.path.join(VERIF, "go", "factgen")
 EVID = os.path.join(VERIF, "evidence")
-if REPO != "/repo":
+if os.environ.get("VERIF_EVIDENCE_DIR"):
+    # runs against a deliberately changed /repo (tools/seedrun.sh): keep the registered evidence untouched
+    EVID = os.environ["VERIF_EVIDENCE_DIR"]
+elif REPO != "/repo":
     # an experiment against another tree (VERIF_REPO=…): its evidence and replays must not overwrite the registered ones
     EVID = os.path.join(VERIF, "build", "evidence-" + hashlib.sha1(REPO.encode()).hexdigest()[:8])
 ALLOWED_AXIOMS = {"propext", "Classical.choice", "Quot.sound"}
